@@ -2,6 +2,7 @@ package ref
 
 import (
 	"fmt"
+	"path"
 	"sort"
 	"strings"
 )
@@ -155,7 +156,8 @@ func ApplyRules(rules [][]string, srcType string, link LinkState, links map[stri
 				}
 				dstPath := base
 				if r.DstPrefix != "" {
-					dstPath = normPrefix(r.DstPrefix) + "/" + base
+					// joined like paths are joined: "." as prefix is the directory itself, doubled slashes collapse
+					dstPath = path.Clean(normPrefix(r.DstPrefix) + "/" + base)
 				}
 				dh, ok := dstArtifacts[dstPath]
 				if !ok || !dh.Equal(artifacts[p]) {
